@@ -58,7 +58,7 @@ def vw(b):
 class C14(Prop):
     id = "C14"
     title = "Output reaches the client in order, exactly once, under any write pattern"
-    lean_modules = ["NV.C14.Props", "NV.C14.PropsHist", "NV.C14.PropsNeg", "NV.C14.PropsMulti", "NV.C14.PropsClose"]
+    lean_modules = ["NV.C14.Props", "NV.C14.PropsHist", "NV.C14.PropsNeg", "NV.C14.PropsMulti", "NV.C14.PropsClose", "NV.C14.PropsFmt"]
     theorems = ["NV.C14.model_satisfies_spec", "NV.C14.ring_inv", "NV.C14.ring_indices_in_bounds",
                 "NV.C14.chunk_in_bounds", "NV.C14.no_fault", "NV.C14.write_interest_when_pending",
                 "NV.C14.N_two_le", "NV.C14.only_tail_lost", "NV.C14.write_stores_prefix_image",
@@ -70,6 +70,8 @@ class C14(Prop):
                 # pending bytes at close: what is promised
                 "NV.C14.close_loses_only_unsent_suffix", "NV.C14.close_delivers_all_when_socket_accepts",
                 "NV.C14.flushLoop_drains", "NV.C14.peerfin_sends_nothing",
+                # formatting clause of the oracle (add_vmessage stores exactly the text it was asked to format)
+                "NV.C14.model_formats_exactly",
                 # bridges between the definitions regenerated from src/comm.c and the ring operations
                 "NV.C14.chunkLen_eq", "NV.C14.producerNext_eq", "NV.C14.consumerNext_eq", "NV.C14.lengthAfterSend_eq",
                 "NV.C14.thrFull_eq", "NV.C14.thrLF_eq", "NV.C14.keepsData_eq", "NV.C14.keepsData_pipe",
@@ -101,7 +103,9 @@ class C14(Prop):
                   "snooper's receive_snoop that writes, destructs users or raises an error, telnet negotiation replies "
                   "written by copy_chars while input bytes are decoded, interleaved with text): every user's stream of every "
                   "world run is proved to be a single-user run and to satisfy the specification oracle; at close only an unsent "
-                  "suffix of the pending bytes is lost and nothing is lost when the socket accepts; the model is tied "
+                  "suffix of the pending bytes is lost and nothing is lost when the socket accepts; the text add_vmessage stores is "
+                  "the text it was asked to format (oracle clause judgeFmt, proved for the model, checked on every trace with "
+                  "lengths swept around powers of two / ring size / local buffer sizes); the model is tied "
                   "to the source by regenerated constants / expressions / telnet reply strings / 33 statement-shape checks and by running the real "
                   "comm.c code (real setup_accepted_connection on socketpairs, real epoll runtime, real LPC user objects, "
                   "interposed send()/write()/close(), every add_message call observed through a guarded hook) and the model "
@@ -114,7 +118,7 @@ class C14(Prop):
     rule = ("cases = corpus + known-finding inputs + boundary list (messages of N-1/N/N+1/3N bytes, LF arriving at "
             "length N-2/N-1/N, partial sends ending at/before/after the wrap point, all-EWOULDBLOCK, EPIPE mid-write, "
             "EINTR, close/peer close/peer FIN with pending data) + seeded random histories of write/vwrite/sendres/"
-            "flush/cycle/wready/close/peerfin/peerclose with message lengths on both sides of the buffer size, "
+            "flush/cycle/wready/close/peerfin/peerclose/input/vwrite2 with message lengths on both sides of the buffer size, "
             "LF densities 0..1 and send scripts of partial/W/I/P/E results, half of them started at a random ring "
             "offset, for three kinds of user (PORT_ASCII, PORT_TELNET with its connect negotiation, console user), one to "
             "three users per case with independent send scripts, snoop links (set, replaced, loop refused, cleared by "
@@ -157,6 +161,14 @@ class C14(Prop):
                 N = n       # boundary cases and generators follow a changed buffer size
         except X.TieBroken:
             pass
+
+        # fixed-size local buffers of the output functions (none in this tree: add_vmessage formats with vasprintf)
+        self.buf_sizes = []
+        for fn, name, expr in T.local_buffers(src):
+            try:
+                self.buf_sizes.append(X.probe_values(bdir, [("v", expr)], self.const_headers, self.const_prelude)["v"])
+            except X.TieBroken:
+                pass
 
         def errno_value(name):
             try:
@@ -325,6 +337,18 @@ class C14(Prop):
         mk("peerfin-serves-others", ["@2 sendres W", "@2 " + w(b"pending\n"), "@2 flush", "@1 peerfin", "@2 dump"])
         mk("peerclose-serves-others", ["@2 sendres W", "@2 " + w(b"pending\n"), "@2 flush", "sendres W", w(b"mine\n"),
                                        "sendres 2,P", "@1 peerclose", "@2 dump"])
+        # add_vmessage formatting step: lengths around every power of two, the ring size, the longest printable string and
+        # every fixed-size local buffer the translator finds in the output functions (vreq = text requested, wbeg = text formatted)
+        sweep = set()
+        for base in [1 << k for k in range(0, 14)] + [N, 2 * N, 8192] + list(getattr(self, "buf_sizes", [])):
+            for d in (-1, 0, 1):
+                if 0 <= base + d <= 4 * N:
+                    sweep.add(base + d)
+        for ln in sorted(sweep):
+            mk("vfmt-%d" % ln, [vw(filler(ln, ln % 89))])
+        for ln in sorted(x for x in sweep if 2 <= x <= 2 * N and (x & (x - 1)) == 0 or x in getattr(self, "buf_sizes", [])):
+            mk("vfmt2-%d" % ln, ["vwrite2 %s %s" % (hx(filler(ln // 3, 5)), hx(filler(ln - ln // 3, 9))),
+                                 "vwrite2 - %s" % hx(filler(ln - 1, 3) + LF)])
         # (A) short newline-free texts (prompts, telnet sequences) straddling the physical end of the ring
         for r in (N - 1, N - 2, N - 5, N - 30):
             for ln in (2, 6, 40):
@@ -516,9 +540,17 @@ class C14(Prop):
                 k = "close"     # the console has no peer socket
             if k in ("write", "vwrite"):
                 ln = self.gen_len(rng)
+                if k == "vwrite" and rng.chance(1, 3):
+                    # formatted lengths at a power of two (or a local buffer size of the output code) +-1
+                    ln = max(0, rng.choice([1 << rng.range(4, 13)] + list(getattr(self, "buf_sizes", []))) + rng.range(-1, 1))
                 if nusers > 1 and ln > N:
                     ln = rng.choice([ln, rng.range(0, 200)])      # keep multi-user cases small enough for the quick tier
-                body.append("%s%s %s" % (at, k, hx(self.gen_msg(rng, ln))))
+                msg = self.gen_msg(rng, ln)
+                if k == "vwrite" and ln >= 2 and rng.chance(1, 4):
+                    cut = rng.range(0, ln)
+                    body.append("%svwrite2 %s %s" % (at, hx(msg[:cut]), hx(msg[cut:])))
+                else:
+                    body.append("%s%s %s" % (at, k, hx(msg)))
             elif k == "sendres":
                 body.append(at + "sendres " + ",".join(self.gen_tok(rng, offset if u == 1 else 0) for _ in range(rng.range(1, 6))))
             elif k in ("close", "peerfin", "peerclose"):
